@@ -28,6 +28,20 @@ pub fn declared_parameters(role: BuiltinValueRole) -> usize {
     n
 }
 
+/// T2: the value materialised for a role in the Builtin package is `Thunk(Prim { arity, role })` for that same role
+pub fn packaged_arity(role: BuiltinValueRole) -> Option<u64> {
+    let v = zydeco_dynamics::builtin::BuiltinRuntime::package_value(role);
+    let r = match v.as_ref() {
+        | Value::Thunk(Thunk(c)) => match c.as_ref() {
+            | Computation::Prim(Prim { arity, role: r }) if *r == role => Some(*arity),
+            | _ => None,
+        },
+        | _ => None,
+    };
+    core::mem::forget(v);
+    r
+}
+
 #[cfg(kani)]
 mod roles;
 
@@ -387,4 +401,32 @@ mod text2 {
     }
     #[kani::proof] #[kani::unwind(13)] fn str_split_once_mixed() { check("a,\u{e9};\u{20ac},", &[(',', Some(1)), (';', Some(4)), ('\u{e9}', Some(2)), ('z', None), ('\u{20ac}', Some(5)), ('a', Some(0))]) }
     #[kani::proof] #[kani::unwind(13)] fn str_split_once_empty() { check("", &[(',', None), ('a', None)]) }
+}
+
+#[cfg(kani)]
+mod errors {
+    use super::*;
+    use std::io::{Error, ErrorKind};
+    /// [E1] stable error categories: the numbering is the ABI (NotFound=0 .. Closed=6, Other=7); the closed-handle error
+    /// (`HostIoError::closed()`, kind NotConnected) maps to Closed = 6; every other kind maps into 0..=7 (total)
+    #[kani::proof]
+    fn error_kind_numbering() {
+        const KINDS: [ErrorKind; 16] = [ErrorKind::NotFound, ErrorKind::PermissionDenied, ErrorKind::AlreadyExists, ErrorKind::InvalidInput, ErrorKind::InvalidData,
+            ErrorKind::BrokenPipe, ErrorKind::NotConnected, ErrorKind::Other, ErrorKind::UnexpectedEof, ErrorKind::Interrupted, ErrorKind::WouldBlock, ErrorKind::TimedOut,
+            ErrorKind::WriteZero, ErrorKind::Unsupported, ErrorKind::OutOfMemory, ErrorKind::ConnectionRefused];
+        let k: usize = kani::any();
+        kani::assume(k < KINDS.len());
+        let e = Error::from(KINDS[k]);
+        let got = HostIoErrorKind::from_error(&e) as i64;
+        core::mem::forget(e);
+        let want: i64 = if k < 7 { k as i64 } else { 7 };
+        assert!(got == want);
+    }
+    #[kani::proof]
+    fn closed_error_is_kind_six() {
+        let e = HostIoError::closed();
+        let got = HostIoErrorKind::from_error(&e) as i64;
+        core::mem::forget(e);
+        assert!(got == 6);
+    }
 }
